@@ -396,6 +396,62 @@ def run(ctx, report):
     else:
         R6.ok('eval_ExprCompose:constant-slice-piece:n/a', nontrivial=False)
 
+    # ---------------------------------------------------------------- D7 writer's and reader's key of a memory cell agree
+    R7 = report.rule('C06.D7', 'memory cells are stored under the (simplified) address they are looked up with', floor=2)
+    em = methods.get('eval_ExprMem')
+    if em is None:
+        raise AnalysisError('eval_abs.eval_ExprMem not found')
+    # reader: the address eval_ExprMem looks up is simplified
+    a_val = [n for n in walk_no_nested(em) if isinstance(n, ast.Assign) and u(n.targets[0]) == 'a_val']
+    reader_simplified = bool(a_val) and all(isinstance(n.value, ast.Call) and u(n.value.func) == 'expr_simp' for n in a_val) \
+        and any('a_val in self.pool.pool_mem' in u(n) for n in walk_no_nested(em) if isinstance(n, ast.If))
+    if not reader_simplified:
+        raise AnalysisError('eval_ExprMem no longer looks memory cells up by expr_simp(address) in pool_mem: rule C06.D7 has to be re-read')
+    R7.ok('reader:eval_ExprMem', sample='eval_ExprMem: a_val = expr_simp(eval(addr)); a_val in self.pool.pool_mem')
+    mp_methods = ea.methods('mpool')
+    setter = mp_methods.get('__setitem__')
+    if setter is None:
+        raise AnalysisError('mpool.__setitem__ not found')
+
+    def normalising(expr, depth=0):
+        """expr is expr_simp(..), or a call of an mpool method all of whose returns are, or a name assigned such a value in the setter."""
+        if isinstance(expr, ast.Call) and u(expr.func) == 'expr_simp':
+            return True
+        if isinstance(expr, ast.Call) and isinstance(expr.func, ast.Attribute) and u(expr.func.value) == 'self' and expr.func.attr in mp_methods and depth < 3:
+            rets = [r for r in ast.walk(mp_methods[expr.func.attr]) if isinstance(r, ast.Return) and r.value is not None]
+            return bool(rets) and all(normalising(r.value, depth + 1) for r in rets)
+        if isinstance(expr, ast.Name) and depth < 3:
+            asg = [n for n in walk_no_nested(setter) if isinstance(n, ast.Assign) and u(n.targets[0]) == expr.id]
+            return bool(asg) and all(normalising(n.value, depth + 1) for n in asg)
+        return False
+    keys = []
+    for n in walk_no_nested(setter):
+        if isinstance(n, ast.Call) and u(n.func) == 'self.pool_mem.__setitem__' and n.args:
+            keys.append(n.args[0])
+        if isinstance(n, ast.Assign) and isinstance(n.targets[0], ast.Subscript) and u(n.targets[0].value) == 'self.pool_mem':
+            keys.append(n.targets[0].slice)
+    if not keys:
+        raise AnalysisError('mpool.__setitem__: the store into pool_mem was not found')
+    for k in keys:
+        inst = 'writer:mpool.__setitem__[%s]' % u(k)
+        if normalising(k):
+            R7.ok(inst, sample='mpool.__setitem__ stores under %s (simplified address)' % u(k))
+            continue
+        # otherwise every store site must pass a simplified cell
+        init = methods.get('__init__')
+        raw_sites = []
+        for mname, f in sorted(methods.items()):
+            for n in walk_no_nested(f):
+                if isinstance(n, ast.Assign) and isinstance(n.targets[0], ast.Subscript) and u(n.targets[0].value) == 'self.pool':
+                    raw_sites.append((mname, n))
+        bad = [(m_, n) for m_, n in raw_sites if m_ == '__init__']
+        if bad:
+            R7.violation(inst, 'mem-key:writer-raw:%s' % u(k), 'mpool.__setitem__ keys a memory cell by the raw %s while eval_ExprMem looks cells up by the simplified address; eval_abs.__init__ '
+                         'stores the caller\'s cells unsimplified (%s): a cell bound under @32[esp-4] is never found' % (u(k), norm(bad[0][1])), where(ea, setter),
+                         witness='eval_abs({ExprMem(esp - ExprInt32(4)): ExprInt32(0x1234)}).eval_expr(ExprMem(esp - ExprInt32(4)), {}) returns the cell unevaluated')
+        else:
+            R7.ok(inst, sample='every store site passes a simplified cell')
+
     R4 = report.rule('C06.D4', 'results are cast to the operands\' type; identifiers are looked up exactly', floor=2)
     txt = u(eo)
     if 'return ExprInt(cast_int(ret_value))' in txt and 'cast_int = types_tab[0]' in txt and 'types_tab = [type(a) for a in args]' in txt:
@@ -609,6 +665,7 @@ def run(ctx, report):
 
 
 MUTANTS = [
+    ('mpool-raw-key', 'miasmx/expression/expression_eval_abstract.py', "        return expr_simp(a.arg)\n    def __contains__", "        return a.arg\n    def __contains__", 'C06.D7'),
     ('compose-no-const-slice', 'miasmx/expression/expression_eval_abstract.py', "            if isinstance(x, ExprSlice) and isinstance(x.arg, ExprInt):\n                return (int(x.arg.arg) >> x.start) & ((1<<(x.stop-x.start))-1)\n", "", 'C06.D6'),
     ('nocheck-misspelt', 'miasmx/expression/expression_eval_abstract.py', "    op_size_no_check = ['<<<', '>>>', 'a>>', '>>', '<<',", "    op_size_no_check = ['<<<', '>>>', 'a<<', '>>', '<<',", 'C06.D1'),
     ('rcl-narrow-shift', 'miasmx/expression/expression_eval_abstract.py', "        r = int(r)\n        tmpa = (int(args[0])<<1) | (int(args[2])&1)\n        rez = (tmpa<<r) | (tmpa >> (op_size+1-r))", "        r = int(r)\n        tmpa = int(args[0]<<1) | (int(args[2])&1)\n        rez = (tmpa<<r) | (tmpa >> (op_size+1-r))", 'C06.D5'),
